@@ -117,7 +117,7 @@ def check_pair(case) -> Result:
         i = next((k for k, (a, b) in enumerate(zip(c1, c2)) if a != b), min(len(c1), len(c2)))
         r.bad("output-differs", f"noise {labels} changed the converted document at {i}: ...{c1[max(0, i - 80) : i + 80]!r} vs ...{c2[max(0, i - 80) : i + 80]!r}; noisy={case['noisy'][:400]}")
         r.info = {"o1": o1, "o2": o2}
-    deep = any("@" in l and l.split("@")[1] not in ("svg",) for l in labels)
+    deep = any("@" in l and l.split("@")[1] not in ("svg", "document") for l in labels)
     r.nontrivial = deep and o1.count("<path") >= 2
     return r
 
